@@ -36,7 +36,7 @@ m = {
               "source_commits": [], "add_only": True},
     "engines": [
         {"name": "lean-proof+correspondence", "path": "lean/ + harness/", "serves_properties": [c["property_id"] for c in checks],
-         "kind_free_text": "Lean 4 model of the server with per-property theorems; translator regenerates constants/SQL from /repo each run; Python harness runs the real code and the compiled model on the same histories, diffs observations and evaluates property oracles on the implementation's traces"}],
+         "kind_free_text": "Lean 4 model of the server with per-property theorems; five translators regenerate constants, schema scripts, every SQL statement of server.py, onMessage and all handlers of server_websocket.py and the usage-summary functions from /repo each run, and Lean re-proves the model equal to them; Python harness runs the real code and the compiled model on the same histories, diffs observations and evaluates property oracles on the implementation's traces"}],
     "checks": checks,
     "not_applicable": [{"property_id": k, "reason": v} for k, v in sorted(NOT_APPLICABLE.items())],
     "notes": "Fixes of genuine defects are 'fix:' commits in /repo (see known_findings.json, DESIGN.md section 3). ./check <id> exits 0/1/2 = held / VIOLATION printed / check could not run.",
